@@ -12,6 +12,7 @@ import (
 	"runtime/debug"
 	"sort"
 	"strings"
+	"sync/atomic"
 
 	sqle "github.com/dolthub/go-mysql-server"
 	"github.com/dolthub/go-mysql-server/memory"
@@ -144,8 +145,9 @@ func (s *Sess) End() {
 }
 
 func (s *Sess) ctx() *sql.Context {
-	s.W.nextPid++
-	return sql.NewContext(context.Background(), sql.WithSession(s.S), sql.WithPid(s.W.nextPid))
+	// (atomic: C36b runs sessions on real goroutines)
+	pid := atomic.AddUint64(&s.W.nextPid, 1)
+	return sql.NewContext(context.Background(), sql.WithSession(s.S), sql.WithPid(pid))
 }
 
 // Res is the outcome of one statement.
